@@ -4,6 +4,7 @@ from __future__ import annotations
 
 import ast
 import re
+import subprocess
 import warnings
 
 from hypothesis import given, strategies as st
@@ -483,6 +484,71 @@ def autofix_history(kinds, src, col=None):
     return fails
 
 
+# ----------------------------------------------------------------- command line route
+
+CLI_FLAGS = [x for c in FIX_CODES for x in ("-e", c)] + ["--maximum-positional-args", "2"]
+
+
+def cli_autofix(kinds, src, col=None):
+    """`python -m pyanalyze -A` rewrites the file: one pass must give the text the in-process step gives or
+    another single intended edit (the entry points may order the offered fixes differently); `-A -r` (repeat until nothing changes) must leave a file
+    that parses and in which no fixable diagnostic that offered a change is left."""
+    import os as _os
+    import shutil as _sh
+    import tempfile as _tf
+
+    fails = []
+    res = sut.check_source(src, checker=checker_for("fix"), apply_changes=True)
+    if res.raised is not None:
+        return None
+    expected = res.new_code if res.new_code is not None else src
+    d = _tf.mkdtemp(prefix="pv_c16_cli_")
+    try:
+        path = _os.path.join(d, "pv_c16_case.py")
+        open(path, "w").write(src)
+        code, out, err = sut.run_cli(["-A", *CLI_FLAGS, path], cwd=d)
+        got = open(path).read()
+        if "Traceback (most recent call last)" in err and "Internal error" not in out + err:
+            fails.append(("cli|traceback", f"`python -m pyanalyze -A` printed a traceback: {err[-300:]}"))
+        if got != expected:
+            # several fixes may be on offer and the two entry points need not pick the same one first: the
+            # one-pass text must still be one intended edit for one of the fixable codes reported
+            codes = sorted({d.code for d in res.diags if d.code in FIX_CODES})
+            try:
+                edit = ast_edit(src, got)
+                ok = any(intended_edit(c, edit) is None for c in codes)
+                why = "" if ok else "; ".join(f"{c}: {intended_edit(c, edit)[1][:120]}" for c in codes)
+            except SyntaxError as e:
+                same = [k for k, _ in (autofix_history(kinds, src) or []) if "does-not-parse" in k]
+                fails.append((same[0] if same else "cli|one-pass|does-not-parse", f"`-A` leaves a file that does not parse ({e.msg}):\n{got}--- from\n{src}"))
+                return fails
+            if not ok:
+                fails.append(("cli|one-pass-unintended-edit",
+                              f"after `python -m pyanalyze -A` the file is\n{got}--- which is not one intended edit of\n{src}--- ({why})"))
+        if col is not None:
+            col.case(nontrivial_id=("cli", src) if got != src else None, label=["route:cli-autofix"] + [f"kind:{k}" for k in kinds])
+        if not fails and got != src:
+            open(path, "w").write(src)
+            code, out, err = sut.run_cli(["-A", "-r", *CLI_FLAGS, path], cwd=d, timeout=240)
+            final = open(path).read()
+            try:
+                ast.parse(final)
+            except SyntaxError as e:
+                # the same root cause seen through the in-process history keeps its key
+                same = [k for k, _ in (autofix_history(kinds, src) or []) if "does-not-parse" in k]
+                fails.append((same[0] if same else "cli|repeat|does-not-parse",
+                              f"`-A -r` leaves a file that does not parse ({e.msg}):\n{final}--- from\n{src}"))
+                return fails
+            again = sut.check_source(final, checker=checker_for("fix"), apply_changes=True)
+            if again.raised is None and again.new_code is not None and again.new_code != final:
+                fails.append(("cli|repeat|not-a-fixpoint", f"`-A -r` stopped at a text for which a further fix is proposed:\n{final}--- from\n{src}"))
+        return fails
+    except subprocess.TimeoutExpired:
+        return [("cli|repeat|does-not-terminate", f"`python -m pyanalyze -A -r` did not finish within 240 s on\n{src}")]
+    finally:
+        _sh.rmtree(d, ignore_errors=True)
+
+
 # ----------------------------------------------------------------- shards
 
 
@@ -490,12 +556,27 @@ def shards(tier, seed):
     n = 16
     out = [{"mode": "autofix", "index": i, "examples": 300 if tier == "quick" else 6000} for i in range(8)]
     out += [{"mode": "add-ignores", "index": i, "examples": 60 if tier == "quick" else 2000} for i in range(8)]
+    out += [{"mode": "cli", "index": i, "examples": 6 if tier == "quick" else 150} for i in range(4)]
     return out
 
 
 def run_shard(spec):
     col = runner.Collector(spec)
     seed = runner.mix_seed(spec["seed"], ID, spec["name"])
+    if spec["mode"] == "cli":
+        def make_c():
+            @given(fixable_program())
+            def t(p):
+                kinds, src = p
+                fails = cli_autofix(kinds, src, col)
+                if fails is None:
+                    col.discarded += 1
+                    return
+                for key, what in fails:
+                    col.fail(key, what, {"src": src, "kinds": kinds, "mode": "cli"}, raise_new=True)
+            return t
+        runner.drive(col, make_c, seed, spec["examples"], replay=replay)
+        return col.result()
     if spec["mode"] == "autofix":
         def make():
             @given(fixable_program())
@@ -528,7 +609,9 @@ def run_shard(spec):
 
 
 def replay_all(case):
-    if case.get("mode") == "autofix":
+    if case.get("mode") == "cli":
+        fails = cli_autofix(case.get("kinds", []), case["src"]) or []
+    elif case.get("mode") == "autofix":
         fails = autofix_history(case.get("kinds", []), case["src"]) or []
     else:
         fails = add_ignore_history(case["src"]) or []
